@@ -263,6 +263,14 @@ func fmtCases(format string, keys []string, thorough bool, emit func(rc recCase)
 		rc.MsgQ = qk(m)
 		variants(rc)
 	}
+	// L8: severities - every built-in one, an unregistered one, and registered ones whose titles are free text
+	for _, lv := range recSeverities {
+		rc := base
+		rc.Layer = "L8-severities"
+		rc.Level = int(lv)
+		rc.Attrs = []attrNode{leaf("k", "int:-1")}
+		variants(rc)
+	}
 	// L2: one attribute: key x value
 	for _, k := range keys {
 		for i := range valSpecs {
